@@ -19,8 +19,16 @@ theorem TL_stable {t u : Nat} {sh sh' : Shared} {thu : Th} (hG : Guar t sh sh') 
 def holdsI (th : Th) : Int := th.holds
 def rdI (th : Th) : Int := rdIn th.pc
 
-structure Inv (s : State) : Prop where
-  rcSum : s.sh.rc = lsum holdsI s.ts
+/-- The inductive invariant.  `legacy = false`: every caller DecRefs only what it owns (the
+proposed repair of finding F14a; also every run of the code as written in which no stray DecRef
+occurs).  `legacy = true`: the callers as written, which may DecRef a segment they did not pin
+(`Proc.decRefStray`).  Everything except the exact count `rcSum` and the absence of stray DecRefs
+holds for both. -/
+structure Inv (legacy : Bool) (s : State) : Prop where
+  rcLe : s.sh.rc ≤ lsum holdsI s.ts
+  rcNonneg : 0 ≤ s.sh.rc
+  rcSum : legacy = false → s.sh.rc = lsum holdsI s.ts
+  noStray : legacy = false → ∀ (t : Nat) (th : Th), s.ts[t]? = some th → strayPC th.pc = false
   openOfRc : s.sh.down = false → s.sh.rc > 0 → s.sh.isOpen = true
   dirOfOpen : s.sh.isOpen = true → s.sh.dir = true
   mbdOfNoDir : s.sh.dir = false → s.sh.mbd = true
@@ -34,20 +42,18 @@ structure Inv (s : State) : Prop where
 theorem holdsI_nonneg (x : Th) : 0 ≤ holdsI x := by simp [holdsI]
 theorem rdI_nonneg (x : Th) : 0 ≤ rdI x := by simp [rdI, rdIn]; split <;> simp
 
-theorem Inv.pre {s : State} (hI : Inv s) {t : Nat} {th : Th} (hg : s.ts[t]? = some th) : Pre t s.sh th := by
-  have h1 := (lsum_ge holdsI holdsI_nonneg s.ts t th hg).1
+theorem Inv.pre {legacy : Bool} {s : State} (hI : Inv legacy s) {t : Nat} {th : Th} (hg : s.ts[t]? = some th) : Pre t s.sh th := by
   have h2 := (lsum_ge rdI rdI_nonneg s.ts t th hg).1
-  refine ⟨?_, hI.lockIff t th hg, hI.openOfRc, hI.dirOfOpen, hI.mbdOfNoDir, hI.rdExcl, ?_, hI.tl t th hg⟩
-  · rw [hI.rcSum]; exact h1
+  refine ⟨hI.rcNonneg, hI.lockIff t th hg, hI.openOfRc, hI.dirOfOpen, hI.mbdOfNoDir, hI.rdExcl, ?_, hI.tl t th hg⟩
   · intro hr
     have : rdI th = 1 := by simp [rdI, rdIn, hr]
     have h3 := hI.rdSum
     omega
 
-theorem Inv.init : Inv State.init := by
+theorem Inv.init (legacy : Bool) : Inv legacy State.init := by
   constructor <;> simp [State.init, Shared.init, lsum, prem]
 
-theorem Inv.spawn {s : State} (hI : Inv s) : Inv { s with ts := s.ts ++ [Th.init] } := by
+theorem Inv.spawn {legacy : Bool} {s : State} (hI : Inv legacy s) : Inv legacy { s with ts := s.ts ++ [Th.init] } := by
   have key : ∀ t th, (s.ts ++ [Th.init])[t]? = some th → s.ts[t]? = some th ∨ (t = s.ts.length ∧ th = Th.init) := by
     intro t th h
     by_cases hlt : t < s.ts.length
@@ -61,8 +67,13 @@ theorem Inv.spawn {s : State} (hI : Inv s) : Inv { s with ts := s.ts ++ [Th.init
         | succ n => rw [hd] at h; simp at h
       rw [this] at h; simp at h
       exact ⟨by omega, h.symm⟩
-  refine ⟨?_, hI.openOfRc, hI.dirOfOpen, hI.mbdOfNoDir, ?_, ?_, ?_, hI.rdExcl, ?_, ?_⟩
-  · simp [lsum_append, hI.rcSum, holdsI, Th.init]
+  refine ⟨?_, hI.rcNonneg, ?_, ?_, hI.openOfRc, hI.dirOfOpen, hI.mbdOfNoDir, ?_, ?_, ?_, hI.rdExcl, ?_, ?_⟩
+  · have := hI.rcLe; simp [lsum_append, holdsI, Th.init] at *; exact this
+  · intro hl; simp [lsum_append, hI.rcSum hl, holdsI, Th.init]
+  · intro hl t th h
+    rcases key t th h with h | ⟨rfl, rfl⟩
+    · exact hI.noStray hl t th h
+    · simp [Th.init, strayPC]
   · intro t th h
     rcases key t th h with h | ⟨rfl, rfl⟩
     · exact hI.lockIff t th h
@@ -84,12 +95,13 @@ theorem Inv.spawn {s : State} (hI : Inv s) : Inv { s with ts := s.ts ++ [Th.init
       · rw [List.getElem?_eq_none h] at hg; simp at hg
     simpa [List.getElem?_append_left hlt] using hg
 
-theorem Inv.tstep {s : State} (hI : Inv s) {t : Nat} {th th' : Th} {p : Proc} {ok : Bool} {sh' : Shared}
-    (hg : s.ts[t]? = some th) (hp : p ≠ .decRefStray) (h : tstep t s.sh th p ok = some (sh', th')) :
-    Inv { sh := sh', ts := s.ts.set t th' } := by
+theorem Inv.tstep {legacy : Bool} {s : State} (hI : Inv legacy s) {t : Nat} {th th' : Th} {p : Proc} {ok : Bool}
+    {sh' : Shared} (hg : s.ts[t]? = some th) (hp : legacy = false → p ≠ .decRefStray)
+    (h : tstep t s.sh th p ok = some (sh', th')) :
+    Inv legacy { sh := sh', ts := s.ts.set t th' } := by
   have P := hI.pre hg
-  have A := tstep_postA h P hp
-  have B := tstep_postB h P hp
+  have A := tstep_postA h P
+  have B := tstep_postB h P
   have G := tstep_guar h P
   have hlt : t < s.ts.length := by
     rcases Nat.lt_or_ge t s.ts.length with h | h
@@ -100,10 +112,23 @@ theorem Inv.tstep {s : State} (hI : Inv s) {t : Nat} {th th' : Th} {p : Proc} {o
     by_cases e : u = t
     · subst e; left; simp [List.getElem?_set_self hlt] at hu; exact ⟨rfl, hu.symm⟩
     · right; refine ⟨e, ?_⟩; rwa [List.getElem?_set_ne (fun x => e x.symm)] at hu
-  refine ⟨?_, A.openOfRc, A.dirOfOpen, A.mbdOfNoDir, ?_, ?_, ?_, B.rdExcl, ?_, ?_⟩
-  · show sh'.rc = lsum holdsI (s.ts.set t th')
+  refine ⟨?_, A.rcNonneg, ?_, ?_, A.openOfRc, A.dirOfOpen, A.mbdOfNoDir, ?_, ?_, ?_, B.rdExcl, ?_, ?_⟩
+  · show sh'.rc ≤ lsum holdsI (s.ts.set t th')
     rw [lsum_set holdsI s.ts t th th' hg]
-    have := hI.rcSum; have := A.rcDelta; simp only [holdsI] at *; omega
+    have := hI.rcLe; have := A.rcLe; simp only [holdsI] at *; omega
+  · intro hl
+    show sh'.rc = lsum holdsI (s.ts.set t th')
+    rw [lsum_set holdsI s.ts t th th' hg]
+    have := hI.rcSum hl; have := A.rcEq (hI.noStray hl t th hg); simp only [holdsI] at *; omega
+  · intro hl u thu hu
+    rcases getset u thu hu with ⟨rfl, rfl⟩ | ⟨_, hu'⟩
+    · cases hst : strayPC thu.pc with
+      | false => rfl
+      | true =>
+        rcases A.stray hst with h1 | ⟨_, h2⟩
+        · rw [hI.noStray hl u th hg] at h1; cases h1
+        · exact absurd h2 (hp hl)
+    · exact hI.noStray hl u thu hu'
   · intro u thu hu
     rcases getset u thu hu with ⟨rfl, rfl⟩ | ⟨hne, hu'⟩
     · exact A.lock
@@ -150,7 +175,8 @@ theorem Inv.tstep {s : State} (hI : Inv s) {t : Nat} {th th' : Th} {p : Proc} {o
         intro e; subst e; rw [hg] at hu; cases hu; rw [hnp] at hpu; simp at hpu
       exact ⟨u, thu, by rw [List.getElem?_set_ne (fun x => hne x.symm)]; exact hu, hpu⟩
 
-theorem Inv.step {s s' : State} {l : Label} (hI : Inv s) (hf : l.fair = true) (hs : s.step l = some s') : Inv s' := by
+theorem Inv.step {legacy : Bool} {s s' : State} {l : Label} (hI : Inv legacy s) (hf : legacy = true ∨ l.fair = true)
+    (hs : s.step l = some s') : Inv legacy s' := by
   cases l with
   | spawn => simp [State.step] at hs; subst hs; exact hI.spawn
   | step t p ok =>
@@ -163,15 +189,14 @@ theorem Inv.step {s s' : State} {l : Label} (hI : Inv s) (hf : l.fair = true) (h
       · rename_i sh' th' hstep
         simp at hs; subst hs
         refine hI.tstep hg ?_ hstep
-        intro e; subst e; simp [Label.fair] at hf
+        intro hl e; subst e
+        rcases hf with hf | hf
+        · rw [hl] at hf; cases hf
+        · simp [Label.fair] at hf
 
-theorem inv_of_reach {s : State} (h : Reach false s) : Inv s := by
+theorem inv_of_reach {legacy : Bool} {s : State} (h : Reach legacy s) : Inv legacy s := by
   induction h with
-  | init => exact Inv.init
-  | step l _ hf hs ih =>
-    refine ih.step ?_ hs
-    rcases hf with hf | hf
-    · simp at hf
-    · exact hf
+  | init => exact Inv.init legacy
+  | step l _ hf hs ih => exact ih.step hf hs
 
 end Banyan.C14
